@@ -1,5 +1,7 @@
 import ProbLogModel.PyPl
 import ProbLogProofs.Lemmas.PyPl
+import ProbLogModel.Extern
+import ProbLogProofs.Lemmas.Extern
 /-!
 # C28 — Python and Prolog values convert losslessly (property theorems only)
 
@@ -231,5 +233,59 @@ theorem C28_singleton_tuple (dec : String → String) : pl2pyWith dec (py2pl (.t
 example : good stripPair (.list [.int 1, .flt (1 / 4), .str "it's \"x\"", .tup [], .tup [.int 1, .list [.tup [.int 2, .int 3]]]]) = true := by
   decide +kernel
 example : good stripAll (.tup [.str "ab", .tup [.int 1, .int 2], .int 3]) = true := by decide +kernel
+
+/-! ## The wrapper of `problog_export` (ProbLogModel/Extern.lean): which calls succeed
+
+"A function exported with problog_export is seen from ProbLog as returning exactly its Python result": a call whose
+bound output arguments have the declared types never raises CallModeError, and it has an answer iff every bound output
+equals the corresponding converted result; the answer carries exactly the converted results.  The proof does not use
+that `check_mode` finds the *intended* mode index, only that whatever accepted mode it returns has the bit of every
+bound output set — which is where the bit order of `_extract_callmode` and of the wrapper's loop have to agree. -/
+section Export
+open ProbLogModel.Extern ProbLogProofs.ExternLemmas
+
+/-- **Decision rule of `problog_export`.** -/
+theorem C28_export_decision (targs : List (Ty × Arg)) (rs : List Pl)
+    (hlen : rs.length = targs.length) (hty : wellTyped targs = true) :
+    exportCall targs rs = if allMatch targs rs then .ok rs else .fail := by
+  obtain ⟨b, hb, hm⟩ := checkMode_some targs hty
+  simp only [exportCall, hb, wrapLoop_of_matches b targs rs hlen hm]
+  by_cases h : allMatch targs rs = true <;> simp [h]
+
+/-- **Decision rule of `problog_export_nondet` / `problog_export_raw`**: the answers are exactly the result tuples all
+    of whose components equal the bound arguments, in the order returned by the Python function. -/
+theorem C28_export_nondet_decision (targs : List (Ty × Arg)) (rss : List (List Pl))
+    (hlen : ∀ rs ∈ rss, rs.length = targs.length) (hty : wellTyped targs = true) :
+    exportCallNondet targs rss = some (rss.filter (allMatch targs)) := by
+  obtain ⟨b, hb, hm⟩ := checkMode_some targs hty
+  simp only [exportCallNondet, hb, Option.some.injEq]
+  induction rss with
+  | nil => rfl
+  | cons rs rest ih =>
+    have h1 := wrapLoop_of_matches b targs rs (hlen rs (by simp)) hm
+    have ih' := ih (fun r hr => hlen r (by simp [hr]))
+    simp only [List.filterMap_cons, List.filter_cons, h1]
+    by_cases h : allMatch targs rs = true <;> simp [h, ih']
+
+/-- The bit order matters: with the loop's test `bound & (1 << i)` (the code of `problog_export_raw` before
+    repo_patches/C28_raw_bound_bit.diff, and the seeded defect C28_3 in `problog_export`) the call
+    `f(Q, 5)` succeeds although the function returned `(3, 2)`. -/
+theorem C28_export_reversed_bit_refuted :
+    exportCallRev [(.int, .unbound), (.int, .bound (.cint 5))] [.cint 3, .cint 2] = .ok [.cint 3, .cint 2]
+    ∧ allMatch [(.int, .unbound), (.int, .bound (.cint 5))] [.cint 3, .cint 2] = false := by
+  decide
+
+/-! Non-vacuity: a well-typed call that succeeds, one that fails, and a nondeterministic one that keeps one of two. -/
+example : wellTyped [(.int, .unbound), (.str, .bound (.atom "ab")), (.list, .bound (.app2 "." (.cint 1) (.atom "[]")))] = true
+    ∧ exportCall [(.int, .unbound), (.str, .bound (.atom "ab")), (.list, .bound (.app2 "." (.cint 1) (.atom "[]")))]
+        [.cint 7, .atom "ab", .app2 "." (.cint 1) (.atom "[]")] = .ok [.cint 7, .atom "ab", .app2 "." (.cint 1) (.atom "[]")] := by
+  decide
+example : exportCall [(.int, .unbound), (.int, .bound (.cint 5))] [.cint 3, .cint 2] = .fail := by decide
+example : exportCallNondet [(.int, .bound (.cint 3)), (.term, .unbound)] [[.cint 3, .atom "a"], [.cint 4, .atom "b"]]
+    = some [[.cint 3, .atom "a"]] := by decide
+/-- An ill-typed bound output is a CallModeError (outside the theorems' hypothesis). -/
+example : exportCall [(.int, .bound (.atom "x"))] [.cint 3] = .modeError := by decide
+
+end Export
 
 end ProbLogProofs.C28
